@@ -18,7 +18,7 @@ const (
 // control attributes.
 type URL url.URL
 
-var escapeRegexp = regexp.MustCompile(`^(.+?)://(.*?)@(.*?)/(.*?)$`)
+var escapeRegexp = regexp.MustCompile(`^(.+?)://([^/?#]*?)@(.*?)/(.*?)$`)
 
 // ParseURL parses a RTSP URL.
 func ParseURL(s string) (*URL, error) {
